@@ -81,6 +81,7 @@ def rand_spec(rng, depth=4, max_width=4, p_leaf=0.35, p_ortho=0.3, p_headless=0.
             if d >= depth or rng.random() < p_leaf: return ('L',)
             n = rng.randint(1, max_width)
             if rng.random() < p_ortho:
+                if rng.random() < 0.12: n = rng.choice([8, 8, 9])        # prong-bit views ending exactly on / just past a unit boundary
                 headless = (not under_util) and rng.random() < p_headless
                 return ('O', headless, [node(d + 1, under_util) for _ in range(n)])
             st = rng.choice(strategies)
@@ -131,6 +132,8 @@ CURATED = {
     'k_single': C('Composite', L, L, L),
     # orthogonal region wider than 8 (two bit units) followed by orthogonal siblings: unit offsets of later regions
     'k_ortho_wide9': O(O(L, L, L, L, L, L, L, L, C('Composite', L, L)), O(C('Resumable', L, L), C('Composite', L, L)), C('Composite', L, O(L, L))),
+    # orthogonal region exactly 8 wide (its prong-bit view ends on a unit boundary) whose prongs hold nested regions
+    'k_ortho_w8': C('Composite', O(C('Composite', L, C('Composite', L, L)), L, L, L, L, L, C('Resumable', L, C('Resumable', L, L)), C('Composite', L, L)), L),
     # width-1 regions (no save/load)
     'k_width1': C('Composite', C('Composite', L), C('Resumable', C('Composite', L, L)), L),
 }
